@@ -230,7 +230,9 @@ type cmafRepData struct {
 func (c *cmafIngester) start(ctx context.Context) {
 
 	defer func() {
+		c.mgr.mu.Lock()
 		c.state = ingesterStateStopped
+		c.mgr.mu.Unlock()
 	}()
 
 	// Finally we should send off the init segments
@@ -306,7 +308,9 @@ func (c *cmafIngester) start(ctx context.Context) {
 	} else {
 		nowMS = int(time.Now().UnixNano() / 1e6)
 	}
+	c.mgr.mu.Lock()
 	c.state = ingesterStateRunning
+	c.mgr.mu.Unlock()
 
 	refRep := c.asset.refRep
 	lastNr := findLastSegNr(c.cfg, c.asset, nowMS, refRep)
